@@ -61,21 +61,33 @@ def run(tier):
         blocks.append((cfg, acts))
     # T1c: several constraints that name the same argument: c required by a (or by two arguments) and excluded by b, used in
     # every order; the bookkeeping holds more than one entry for c when it is finally used
-    for _ in range(30 if tier == "quick" else 800):
-        cfg = g.cfg(nargs=g.r.randint(4, 6), kinds=["flag", "flag", "int"], constraints=False, allow_pos=False)
+    #      (and, in half of the set-ups, a constraint between two unrelated arguments d and e that is activated in between: the
+    #      bookkeeping then holds entries of both kinds for other arguments while c's entries are looked up)
+    for _ in range(40 if tier == "quick" else 1000):
+        cfg = g.cfg(nargs=g.r.randint(6, 8), kinds=["flag", "flag", "int"], constraints=False, allow_pos=False)
         for x in cfg["args"]:
             x["mand"] = False; x["card"] = {"t": "none", "a": 0, "b": 0}
-        a, a2, b, cc = g.r.sample(range(1, len(cfg["args"]) + 1), 4)
+        a, a2, b, cc, d, e = g.r.sample(range(1, len(cfg["args"]) + 1), 6)
         cfg["args"][a - 1]["req"] = [cc]; cfg["args"][a2 - 1]["req"] = [cc]; cfg["args"][b - 1]["exc"] = [cc]
-        for x in (a, a2, b):
+        other = g.r.choice(["none", "exc", "req"])
+        if other != "none":
+            cfg["args"][d - 1][other] = [e]
+        for x in (a, a2, b, d):
             cfg["args"][x - 1]["cspell"] = g.r.choice([0, 0, 1, 2])
         use = lambda i: [i, []] if cfg["args"][i - 1]["kind"] == "flag" else [i, [str(g.r.randint(0, 9))]]
         acts = []
-        for order in ([a, b, cc], [b, a, cc], [a, cc, b], [a, a2, b, cc], [a, b, a2, cc], [a, a2, cc], [a, cc, a2, cc], [a, a2], [b, cc], [cc, b], [a, cc], [cc, a]):
+        orders = [[a, b, cc], [b, a, cc], [a, cc, b], [a, a2, b, cc], [a, b, a2, cc], [a, a2, cc], [a, cc, a2, cc], [a, a2], [b, cc], [cc, b], [a, cc], [cc, a]]
+        if other != "none":
+            orders += [[a, d, b, cc], [a, d, b, cc, e], [b, d, a, e], [b, d, a, cc, e], [d, a, b, cc], [d, b, a], [a, b, d, cc], [b, a, d, e], [d, e, a, b, cc], [d, a, cc, e]]
+        for order in orders:
             line = [use(i) for i in order]
             kinds["constraints_on_one_argument"] += 1
             acts.append(eval_action(g.spell_line(cfg, line), tag={"k": "line", "line": line_json(line)}))
         blocks.append((cfg, acts))
+    # T1e: webs of requires / excludes constraints (3-6 per handler, partner keys in every form), random subsets in random order
+    webs = constraint_web_blocks(g, 25 if tier == "quick" else 800)
+    blocks += webs
+    c.notes.append("T1e: %d lines in %d configurations with webs of argument constraints" % (sum(len(b[1]) for b in webs), len(webs)))
     # T2: rules broken inside a sub-group (bad value, argument used again on the second visit, excluded argument, missing value,
     # unknown key, a sub-group key used outside) and the refusals of command-mode arguments
     for k in range(60 if tier == "quick" else 1500):
